@@ -20,6 +20,8 @@ def _sig_persists(prop, scn, seed, plans, signature):
 
 
 def _drop_task(scn, t):
+    if scn["tasks"][t].get("xg"):
+        return None       # members of a run_experiment_group are rendered together
     s = copy.deepcopy(scn)
     for op in s["history"]:
         if op.get("target") == t:
@@ -110,6 +112,8 @@ def minimise(prop, doc, time_budget=60):
                     changed = True
         # 3b. drop edges
         for t in list(scn["tasks"]):
+            if scn["tasks"][t].get("xg"):
+                continue
             for d in list(scn["tasks"][t]["deps"]):
                 if not left():
                     break
@@ -131,7 +135,7 @@ def minimise(prop, doc, time_budget=60):
                     c["tasks"][t].pop(key)
                     if attempt(c, plans):
                         changed = True
-            if d["kind"] in ("exp", "group", "combine") and left():
+            if d["kind"] in ("exp", "group", "combine") and left() and not d.get("xg"):
                 c = copy.deepcopy(scn)
                 c["tasks"][t]["kind"] = "cmd"
                 c["tasks"][t].setdefault("par", False)
